@@ -56,13 +56,14 @@ CodeP(c) == <<"code", c.sid, c.idx>>
 CmtP(cid, part) == <<"cmt", cid, part>>
 
 (* ---- features of a code piece ---- *)
-StartsNew(c) == c # NoCode /\ ((c.idx = 1 /\ c.k \in {"table", "seq", "view", "ext", "set", "drop", "alter"}) \/ (c.idx = 2 /\ c.k = "upsert"))
+\* "tablens": a CREATE TABLE written WITHOUT the terminating `;` (ended only by the next CREATE / ALTER / DROP line or the end of input)
+StartsNew(c) == c # NoCode /\ ((c.idx = 1 /\ c.k \in {"table", "tablens", "seq", "view", "ext", "set", "drop", "alter"}) \/ (c.idx = 2 /\ c.k = "upsert"))
 \* "upsert": INSERT .. ON CONFLICT .. DO UPDATE <line break> SET q = ..;   - a skipped statement whose LAST line starts with SET
 IsSkip(c) == c # NoCode /\ c.idx = 1 /\ c.k \in {"go", "insert", "grant", "upsert"}
 IsSet(c) == c # NoCode /\ ((c.idx = 1 /\ c.k = "set") \/ (c.idx = 2 /\ c.k = "upsert"))
-EndsSemi(c) == c # NoCode /\ c.idx = c.n /\ c.k # "go"
+EndsSemi(c) == c # NoCode /\ c.idx = c.n /\ c.k \notin {"go", "tablens"}
 \* parenthesis balance of the pending statement after this piece: balanced iff the statement is complete or has no parens
-OpensParen(c) == c.k \in {"table", "insert"} /\ c.idx < c.n
+OpensParen(c) == c.k \in {"table", "tablens", "insert"} /\ c.idx < c.n
 
 Init ==
     /\ stmts = <<>> /\ pos = <<1, 1>> /\ blk = 0 /\ ncm = 0 /\ lines = <<>>
@@ -72,6 +73,14 @@ Init ==
 Balanced(st) == \* statement.count("(") == statement.count(")"): every piece that opened has its closing piece
     LET opened == {p \in Range(st) : p[1] = "code" /\ \E i \in DOMAIN stmts : i = p[2] /\ OpensParen([sid |-> p[2], idx |-> p[3], n |-> stmts[i].n, k |-> stmts[i].k])}
     IN  \A p \in opened : \E q \in Range(st) : q[1] = "code" /\ q[2] = p[2] /\ q[3] = stmts[p[2]].n
+
+\* A statement is LEFT PENDING at its last line (it reaches the grammar with the next statement start / the end of input) when it is
+\* unterminated, or when it is a one-line statement that itself ended a pending statement (process_statement parses the old statement and
+\* keeps the new line, `;` and all, as the pending one).  Computed from the source alone.
+NewKinds == {"table", "tablens", "seq", "view", "ext", "drop", "alter"}
+LeftPending[i \in 0..Len(stmts)] ==
+    IF i = 0 THEN FALSE
+    ELSE stmts[i].k = "tablens" \/ (stmts[i].n = 1 /\ stmts[i].k \in NewKinds /\ LeftPending[i - 1])
 
 (* ---- parser.py process_line, one source line --------------------------------------------------- *)
 Line(l, notLast) ==
@@ -154,7 +163,12 @@ WriteCode(d, trail) ==  \* the next code piece (of the statement in progress, or
     /\ blk = 0
     /\ IF Started THEN d = stmts[pos[1]]
        ELSE /\ Len(stmts) < MaxStmts /\ pos[2] = 1
-            /\ d.k = "alter" => (\E i \in DOMAIN stmts : stmts[i].k = "table") /\ (\A i \in DOMAIN stmts : stmts[i].k # "alter")
+            \* an unterminated statement can only be followed by a line that starts a statement (anything else is glued to it), and a SET line
+            \* discards it (process_statement parses nothing while a SET line is pending): both outside the scripts of C03 / C08
+            \* (a ONE-line `;`-terminated statement after a pending one keeps its `;` when it is parsed at the end of input: `START 1;`
+            \*  raises ValueError, `ADD UNIQUE (a);` TypeError - scripts mixing the two styles that way are outside C03 / C08, see OBSERVATIONS.md)
+            /\ LeftPending[Len(stmts)] => d.k \in NewKinds /\ (d.n >= 2 \/ d.k = "tablens")
+            /\ d.k = "alter" => (\E i \in DOMAIN stmts : stmts[i].k \in {"table", "tablens"}) /\ (\A i \in DOMAIN stmts : stmts[i].k # "alter")
     /\ LET c == [sid |-> pos[1], idx |-> pos[2], n |-> d.n, k |-> d.k]
            cm == IF trail = "none" THEN NoCm ELSE [style |-> trail, cid |-> ncm + 1, dash |-> FALSE]
            l == [ind |-> FALSE, code |-> c, cm |-> cm]
@@ -201,6 +215,10 @@ ExpectedWithTails ==
     IN  [j \in DOMAIN idx |-> IF stmts[idx[j]].k \in {"insert", "grant"}
                               THEN [q \in 1..(stmts[idx[j]].n - 1) |-> <<"code", idx[j], q + 1>>] ELSE StmtPieces(idx[j])]
 
+\* the last complete statement is an unterminated one: it is still pending (it reaches the grammar with the next statement start / end of input)
+PendingNS == pos[2] = 1 /\ pos[1] > 1 /\ (pos[1] - 1) \in DOMAIN stmts /\ LeftPending[pos[1] - 1] /\ ~ended
+ExpectedNow == IF PendingNS THEN SubSeq(ExpectedWithTails, 1, Len(ExpectedWithTails) - 1) ELSE ExpectedWithTails
+
 (* deviations of the shipped scanner, each detected from the SOURCE (lines), so that the tag is independent of the mechanism *)
 DevIndentedBlock == \E i \in DOMAIN lines : lines[i].code = NoCode /\ lines[i].ind /\ lines[i].cm.style \in {"open", "mid", "close"}
 DevDashInBlock == \E i \in DOMAIN lines : lines[i].cm.dash
@@ -213,9 +231,9 @@ NoCmt(st) == \A p \in Range(st) : p[1] = "code"
 \* C08: comment text never reaches the grammar
 NoCommentInCode == Dev = {} => \A i \in DOMAIN submitted : NoCmt(submitted[i])
 \* C03 / C08: at every statement boundary the grammar has received exactly the complete statements, whole and in order
-SubmittedExact == (AtBoundary /\ Dev = {}) => submitted = ExpectedWithTails
+SubmittedExact == (AtBoundary /\ Dev = {}) => submitted = ExpectedNow
 \* C03: nothing is carried over a statement boundary
-CleanBoundary == (AtBoundary /\ Dev = {}) => statement = None /\ ~mlc
+CleanBoundary == (AtBoundary /\ Dev = {}) => statement = (IF PendingNS THEN StmtPieces(pos[1] - 1) ELSE None) /\ ~mlc
 \* C08: every reported comment item comes from a source comment, in source order, and no code is reported as comment
 CommentsFromSource == /\ \A i \in DOMAIN comments : comments[i][1] = "cmt"
                       /\ \A i, j \in DOMAIN comments : i < j => comments[i][2] <= comments[j][2]
